@@ -5,6 +5,8 @@
   window for the round, the simulator for the clock.)
 -/
 import FocaModel.Proofs.Detect
+import FocaModel.Proofs.DownGossip
+import FocaModel.Props.C12S
 import FocaModel.Props.C03
 import FocaModel.Props.C12H
 namespace Foca.C03H
@@ -97,6 +99,27 @@ theorem unrefuted_timeout_declares_down (s : State) (m : Id) (inc tok : Nat) (or
     simp only [pure_run] at hrest ⊢
     exact ⟨by rw [hrest.1]; simp, hrest.2 _ (by simp), hrest.2 _ (by simp)⟩
 
+
+end
+
+section
+variable (E : Env)
+
+/-- **Down gossip takes effect at whoever handles it.** An instance successfully handled a datagram addressed to it.
+    Then either it considers the sender inactive (payload discarded, C09), or every member the update section says is
+    Down — other than members of its own address — is now recorded Down, or its address is held by a newer identity
+    (`DownInv`), and by `C11H.down_identity_never_active_again` stays so until its forget-timer. Whatever the instance
+    held about the member (Alive at any incarnation, Suspect, unknown), whatever else the datagram carries, later
+    updates of the same datagram included. With `C08H.notifications_replay_one_call` a member that was active before
+    has its MemberDown (or Rename) among the call's notifications. This is how the survivors that did not probe the
+    failed member themselves come to report it. -/
+theorem down_gossip_takes_effect {s s' : State} {data : Bytes} {orc left : Oracle} {eff : List Effect}
+    (hstep : Foca.step E s (.data data) orc = .done s' eff .ok left)
+    (h : Header) (rest : Bytes) (hdec : E.codec.decHeader data = some (h, rest)) (hdst : h.dst = s.id)
+    (us : List Member) (tail : Bytes) (hparse : parseSection E h rest = some (us, tail)) :
+    (∀ u ∈ us, u.st = .down → u.id.addr ≠ s.id.addr → DownInv u.id s') ∨
+      ∃ c1, Foca.applyUpdate E ⟨h.src, h.srcInc, .alive⟩ true ⟨s, [], orc⟩ = .ok false c1 :=
+  handleData_downs E data _ _ (C12S.step_data_ok E hstep) h rest hdec hdst us tail hparse
 
 end
 
